@@ -246,6 +246,8 @@ type rzHarness struct {
 	callIDs   map[string]string               // tag -> jsonrpc id
 	callCancel map[string]context.CancelFunc  // tag -> cancel of the pending call
 	ncalls    map[string]int                  // per session: calls issued so far (jsonrpc2 numbers them 1,2,…)
+	cancelled map[string]chan struct{}        // handler key -> gate of a cancelled tool handler waiting to return
+	finishing bool
 }
 
 func (h *rzHarness) sawStream(sess, stream string) {
@@ -448,7 +450,70 @@ func (h *rzHarness) tool(ctx context.Context, req *CallToolRequest) (*CallToolRe
 	case txt := <-c.respond:
 		return &CallToolResult{Content: []Content{&TextContent{Text: txt}}}, nil
 	case <-ctx.Done():
+		// Cancelled handlers return one at a time, in request order (drainCancelled): the first response after
+		// the transport was closed still passes the shutdown gate of jsonrpc2 and reaches Write (which drops
+		// its requestStreams entry before failing); which handler that is must not depend on the scheduler.
+		h.cancelGate(args.K)
 		return nil, ctx.Err()
+	}
+}
+
+// cancelGate parks a cancelled tool handler until the harness lets it return.
+func (h *rzHarness) cancelGate(key string) {
+	ch := make(chan struct{})
+	h.mu.Lock()
+	if h.finishing {
+		h.mu.Unlock()
+		return
+	}
+	if h.cancelled == nil {
+		h.cancelled = map[string]chan struct{}{}
+	}
+	h.cancelled[key] = ch
+	h.mu.Unlock()
+	<-ch
+}
+
+// rzKeyLess orders handler keys `<sess>.<req>.x<post>` by session, request id, exchange.
+func rzKeyLess(a, b string) bool {
+	pa, pb := strings.Split(a, "."), strings.Split(b, ".")
+	if len(pa) == 3 && len(pb) == 3 {
+		if pa[0] != pb[0] {
+			return pa[0] < pb[0]
+		}
+		ra, _ := strconv.Atoi(pa[1])
+		rb, _ := strconv.Atoi(pb[1])
+		if ra != rb {
+			return ra < rb
+		}
+		xa, _ := strconv.Atoi(strings.TrimPrefix(pa[2], "x"))
+		xb, _ := strconv.Atoi(strings.TrimPrefix(pb[2], "x"))
+		return xa < xb
+	}
+	return a < b
+}
+
+// drainCancelled lets the cancelled handlers return, smallest key first, quiescing after each.
+func (h *rzHarness) drainCancelled() {
+	for {
+		h.mu.Lock()
+		best := ""
+		for k := range h.cancelled {
+			if best == "" || rzKeyLess(k, best) {
+				best = k
+			}
+		}
+		var ch chan struct{}
+		if best != "" {
+			ch = h.cancelled[best]
+			delete(h.cancelled, best)
+		}
+		h.mu.Unlock()
+		if ch == nil {
+			return
+		}
+		close(ch)
+		synctest.Wait()
 	}
 }
 
@@ -516,6 +581,7 @@ func (h *rzHarness) serve(r rzReq) *rzExch {
 
 // observe renders everything new since the previous call (canonical order) plus the snapshot of sess.
 func (h *rzHarness) observe(snap ...string) string {
+	h.drainCancelled()
 	if h.stateless {
 		// find the connection of the ephemeral session created by the op in progress
 		var conns []*streamableServerConn
@@ -1073,7 +1139,9 @@ func rzYield() {
 
 // finish releases everything so that the bubble can exit.
 func (h *rzHarness) finish() {
+	h.drainCancelled()
 	h.mu.Lock()
+	h.finishing = true
 	xs := append([]*rzExch(nil), h.exchs...)
 	calls := h.calls
 	h.calls = map[string]*rzCall{}
